@@ -1,14 +1,4 @@
-mod dev;
-mod gen;
-mod imggen;
-mod model;
-mod ops;
-mod props;
-mod refdec;
-mod run;
-mod session;
-mod tree;
-mod vol;
+use fatfs_verif::{props, run, session, vol};
 
 use run::Tier;
 
@@ -35,6 +25,10 @@ fn main() {
                 std::process::exit(2);
             }
         }
+    }
+    if args[1] == "gen-corpus" {
+        fatfs_verif::fuzzglue::gen_corpus();
+        return;
     }
     if args[1] == "dump-c08" {
         props::c08::dump(&run::load_replay(&args[2]).unwrap());
